@@ -120,8 +120,39 @@ def run(run):
         calls = [Program.callee_name(t) for _, t in prog.calls(sm)]
         inner = [c for c in prog.closures_of(cm)]
         uses_adj = any(any(strip(r)[0] == "call" and strip(r)[1] == adj for r in Expr(prog, c).returns()) for c in inner)
-        if cm in calls and uses_adj:
+        # exact shape: can_merge = any cell of self x any cell of other is_adjacent, and nothing else decides
+        # (an extra early return, a filter or a bound on the iteration makes adjacent cells end up in
+        # different spans, and a cell only reacts to neighbours of its own span)
+        def any_over(body, src_ok):
+            rets = [strip(r) for r in Expr(prog, body).returns()]
+            if len(rets) != 1:
+                return None, "%d return expressions (an additional condition decides)" % len(rets)
+            r = rets[0]
+            if not (r[0] == "call" and re.search(r"Iterator>?::any$", r[1]) and len(r[2]) == 2):
+                return None, "not an `any` over the cells: %s" % expr_str(r)[:80]
+            it = strip(r[2][0])
+            if it[0] == "phi":
+                it = strip(it[1][0])
+            while it[0] == "call" and re.search(r"::(rev|iter|deref|into_iter)$", it[1]) and it[2]:
+                it = strip(it[2][0])
+            if not src_ok(it):
+                return None, "iterates `%s`, not all cells of the span" % expr_str(it)[:60]
+            cl, caps = closure_of(strip(r[2][1]))
+            return cl, None
+        c1, why = any_over(cm, lambda e: e == ("param", 1, ()))
+        c2 = None
+        if c1:
+            c2, why = any_over(c1, lambda e: e[0] == "param" and e[1] == 1 and len(e[2]) == 1)
+        exact = False
+        if c2:
+            rr = [strip(r) for r in Expr(prog, c2).returns()]
+            exact = len(rr) == 1 and rr[0][0] == "call" and rr[0][1] == adj and {strip(a)[1] for a in rr[0][2] if strip(a)[0] == "param"} == {1, 2}
+            why = None if exact else "the innermost test is `%s`" % (expr_str(rr[0])[:80] if rr else "?")
+        if cm in calls and uses_adj and exact:
             run.ok("C10.I2", "Span::merge merges iff some cell of one span is adjacent to some cell of the other", where(prog.bodies[cm]))
+        elif cm in calls and uses_adj:
+            run.bad("C10.I2", "span-can-merge-extra-condition", where(prog.bodies[cm]),
+                    "Span::can_merge is not exactly `self.iter().any(|a| other.iter().any(|b| a.is_adjacent(b)))`: %s" % why)
         else:
             run.bad("C10.I2", "span-can-merge", where(prog.bodies[cm]), "Span::merge/can_merge do not test Cell::is_adjacent between the spans' cells")
         it = src_fn(run, "cell_buffer/cell.rs", "is_adjacent", impl_self="Cell")
